@@ -13,7 +13,7 @@ CHECKS = [
         "text": "Decides, for every raise/assert/implicit-raiser site reachable from the packet/message constructors and the transport/protocol "
         "receive callbacks (all 106 payload parsers included), that only PacketInvalid (or ValueError for Packet.from_*) can leave the "
         "constructors, that nothing leaves a receive callback or one iteration of a line-reading loop, and that serial frames depend on the "
-        "persistent receive buffer. Does not decide that valid lines decode correctly, nor frame equality over all read partitions (values). IndexError from constant/range-bounded indexes into lists and tuples is modelled: each such site on the receive path is proven in bounds (e.g. the number of blank-separated fields of every string COMMAND_REGEX matches; the non-emptiness of pkt_addrs' filtered address list from its accept-set guard) or reported.",
+        "persistent receive buffer. Does not decide that valid lines decode correctly, nor frame equality over all read partitions (values). IndexError from constant/range-bounded indexes into lists and tuples is modelled: each such site on the receive path is proven in bounds (e.g. the number of blank-separated fields of every string COMMAND_REGEX matches; the non-emptiness of pkt_addrs' filtered address list from its accept-set guard) or reported. Also decides (R4.iv): every search for the line terminator is made on the carried buffer, not on the newly read bytes alone.",
         "note": BASE_NOTE,
     },
     {
@@ -23,7 +23,7 @@ CHECKS = [
         "cancellation at each await) passes _resume(); that no public view (schema/params/status/traits/known_list/fault-log views, 59 "
         "properties) can raise ArithmeticError or a KeyError from a payload-derived key; that the fault-log map only holds timestamps present "
         "in the log; and that the gateway's message handlers and process_msg are fenced with entity handlers deferred. Does not decide "
-        "'every view after every history' beyond these classes, nor that foreign traffic never alters tracked state (behavioural). The view closure also excludes AssertionError from asserts on payload-derived data and IndexError from constant indexes into sequences of unproven length. Also decides: the array-fragment merge requires whole-source and code equality and a time window as conjuncts of its predicate. Also decides (R5): a message whose payload a view iterates as a list of dicts is only parked under a list test of its payload, and every constant payload key a view subscripts is present in every dict its producing parser/helper returns.",
+        "'every view after every history' beyond these classes, nor that foreign traffic never alters tracked state (behavioural). The view closure also excludes AssertionError from asserts on payload-derived data and IndexError from constant indexes into sequences of unproven length. Also decides: the array-fragment merge requires whole-source and code equality and a time window as conjuncts of its predicate. Also decides (R5): a message whose payload a view iterates as a list of dicts is only parked under a list test of its payload, and every constant payload key a view subscripts is present in every dict its producing parser/helper returns. R6: no class-level container is mutated through self without a per-instance re-binding (entities do not share state).",
         "note": BASE_NOTE + " datetime within 10 years of datetime.min/max is outside the model for this property.",
     },
     {
@@ -33,7 +33,7 @@ CHECKS = [
         "exchange and cancellation by the caller's timeout at each await) passes _release_lock(); that no module-level mutable sentinel is "
         "aliased by an instance attribute that is mutated in place; that the change counter is read with I/O before the first fragment request; "
         "and that overheard fragments are merged only under a test of the lock owner. Does not decide 'never a schedule stitched from two "
-        "versions' as a trace property, nor termination of the fragment loop. Also decides, from the decision table of Schedule._is_dated (opaque results of awaited calls are fresh atoms, calls are logged as effects): with force_io=True a 'not dated' answer is only given after the change counter was read with I/O.",
+        "versions' as a trace property, nor termination of the fragment loop. Also decides, from the decision table of Schedule._is_dated (opaque results of awaited calls are fresh atoms, calls are logged as effects): with force_io=True a 'not dated' answer is only given after the change counter was read with I/O. R3 also: a protocol error from the RQ|0006 exchange in _schedule_version cannot be swallowed (a lost version query fails the fetch).",
         "note": BASE_NOTE,
     },
     {
@@ -44,7 +44,7 @@ CHECKS = [
         "not-binding state and every failure path (wait timer, send failure) transitions to DevHasFailedBinding before the error reaches the "
         "caller; that only BindingError/CommandInvalid can leave the two entry points (send errors converted by one helper, used for every "
         "binding command); that armed wait timers are cancelled on leaving the state; and that the three 1FC9 phase tests are mutually exclusive. "
-        "Does not decide that both ends succeed under every interleaving (behavioural).",
+        "Does not decide that both ends succeed under every interleaving (behavioural). R6: only a 1FC9 *offer* is fanned out to every binding device (the fan-out's guard implies phase == offer).",
         "note": BASE_NOTE,
     },
     {
@@ -65,7 +65,7 @@ CHECKS = [
         "the RQ->RP / W->I reply map agrees between frame.pkt_header and the dispatcher; every FSM transition on a received packet is "
         "dominated by whole-header ==/!= tests against the sent command (no prefix/substring matching) with the single enumerated 0418 "
         "null-entry exception, and the gateway-id placeholder is substituted on both sides. Does not decide that real replies carry the "
-        "same context bytes, nor near-miss rejection over all values. Guards are only credited when their truth follows from the edge taken (conjuncts on a true edge, disjuncts on a false edge). Also decides: for every code-specific branch of Frame._ctx, the payload columns the context is built from cover the columns _pkt_idx reads for that code.",
+        "same context bytes, nor near-miss rejection over all values. Guards are only credited when their truth follows from the edge taken (conjuncts on a true edge, disjuncts on a false edge). Also decides: for every code-specific branch of Frame._ctx, the payload columns the context is built from cover the columns _pkt_idx reads for that code. R5: the complete decision tables of WantRply.pkt_rcvd and WantEcho.pkt_rcvd - a packet is accepted as the reply exactly when its header equals the reply header (or it is the enumerated 0418 null-entry) and, before the echo, it is addressed to the command's sender (literally or via the placeholder/real gateway id): nothing else is accepted and these always are.",
         "note": BASE_NOTE,
     },
     {
@@ -75,7 +75,7 @@ CHECKS = [
         "wait_for(timeout=min(qos.timeout, SEND_TIMEOUT_LIMIT)) with the limit folding to 20.0; only ProtocolError can leave send_cmd "
         "(every class set on the future is converted); a result handed to the caller is a header-matched received packet; the future is "
         "only (re)bound together with its command and QoS; the QoS debug flags are off. Does not decide completion time under arbitrary "
-        "schedules beyond the cap being in place; ReadProtocol (raises NotImplementedError by design) is outside the quantifier.",
+        "schedules beyond the cap being in place; ReadProtocol (raises NotImplementedError by design) is outside the quantifier. R1 also: QosParams never raises the caller's timeout (its defining expression is folded for a range of caller values).",
         "note": BASE_NOTE,
     },
     {
@@ -117,7 +117,7 @@ CHECKS = [
         "abstracts to a regular shape (fixed-width hex from format specs refined by the constructor's own range guards, codec helpers "
         "summarised from their source), the shape is included in the decoder's regex for that verb/code (shortest counter-example otherwise; "
         "index-taking constructors are grouped under _check_idx with the accepted index set per constructor); and OpenTherm parity agreement. "
-        "Does not decide that decoded values equal the arguments passed (needs execution). Also decides: no payload segment that flows into a frame is formatted in decimal (unless its range is proven <= 9); no CommandInvalid guard reads a parameter ahead of the statement that re-binds it from itself, and no function that normalises an index with _check_idx() compares the raw parameter with index constants.",
+        "Does not decide that decoded values equal the arguments passed (needs execution). Also decides: no payload segment that flows into a frame is formatted in decimal (unless its range is proven <= 9); no CommandInvalid guard reads a parameter ahead of the statement that re-binds it from itself, and no function that normalises an index with _check_idx() compares the raw parameter with index constants. The shape interpreter folds finite value sets, fixed-width slices, calendar ranges of timetuple() fields, dict-display subscripts, AttrDict._hex and call-site constants (e.g. set_system_time is checked field by field against the 313F regex); a numeric field a constructor writes in hex at fixed columns must not be read back by parser_<code> with a base-10 int().",
         "note": BASE_NOTE + " Hex widths from format specs are exact modulo the codec's representable range (C04). Constructors whose payload does not abstract (listed in the evidence as undecided) are not covered by R3.",
     },
     {
@@ -157,7 +157,7 @@ CHECKS = [
         "Packet()/Message() reads a clock/RNG/environment, declares global state or writes outside the frame's own memo fields (so decoding "
         "cannot depend on prior packets or caches); that each array-capable parser steps by 2 x the element length of CODES_WITH_ARRAYS; that "
         "every x/200 ratio is guarded at 1.0; and that every schema code has a registered parser. Does not decide element-wise equality of "
-        "values nor physical ranges beyond the guards. Also decides: every memoised (lru_cache) function on the decode path returns immutable values only, so no in-place annotation of one packet's payload can leak into another's.",
+        "values nor physical ranges beyond the guards. Also decides: every memoised (lru_cache) function on the decode path returns immutable values only, so no in-place annotation of one packet's payload can leak into another's. R4 uses interval reasoning: a one-octet raw value divided by 100/200 must be bounded at 1.0 by a guard on the quotient, or on the raw value with a bound <= the smallest possible divisor.",
         "note": BASE_NOTE,
     },
     {
@@ -167,7 +167,7 @@ CHECKS = [
         ">= HAS_EXPIRED with HAS_EXPIRED = 2.0, a 3 s grace subtracted from the age, the latch tested before any recomputation and "
         "CANT_EXPIRE -> False; that pkt_lifespan returns a timedelta on every path from verb/code/array-ness/the 3220 id only (no clock) and "
         "the schema's lifespan rows fold to timedelta|False|None; and that the message store is unconditional and keyed by the message's own "
-        "code/verb/context. Does not decide freshness under interleaving as a trace property. Also decides: the message handed to the value reader is always a keyed lookup or max() over all candidates (Message orders by dtm); every non-RQ 1F09 takes its lifetime from the payload countdown in every row of the decision table of Message._expired's update chain; the per-context store is keyed [code][verb][_ctx] on every store path; and no entity property reads <Message>.payload (or an attribute caching a payload) without an _expired test (213 properties).",
+        "code/verb/context. Does not decide freshness under interleaving as a trace property. Also decides: the message handed to the value reader is always a keyed lookup or max() over all candidates (Message orders by dtm); every non-RQ 1F09 takes its lifetime from the payload countdown in every row of the decision table of Message._expired's update chain; the per-context store is keyed [code][verb][_ctx] on every store path; and no entity property reads <Message>.payload (or an attribute caching a payload) without an _expired test (213 properties). R2 also: from the decision table of Message._expired (with effects), a 'not expired' verdict is never served from the memoised fraction except for 'cannot expire'.",
         "note": BASE_NOTE,
     },
     {
